@@ -252,11 +252,19 @@ def _find_post(c):
     j = z3.BitVec('q_j', 8)
     # with the active transitions sorted by start, the result is the last one that starts at or before t
     sorted_ = z3.ForAll([k, j], z3.Implies(z3.And(z3.ULE(k, j), z3.ULT(j, p['free'])), start(k) <= start(j)))
+    exists = z3.Exists([k], z3.And(z3.ULT(k, p['free']), r == slot(c.old, c.this, k), start(k) <= t,
+                                   z3.Or(k + 1 == p['free'], start(k + 1) > t)))
+    goal = exists
+    # while the function itself is being proved, the existential is shown with its witness: the loop counter at the return, minus
+    # one (the loop invariant speaks about exactly that slot); callers get the existential
+    st = c.state
+    if st is not None and st.frames and st.frames[-1].fn is c.fn and 'i' in st.frames[-1].allocas:
+        from vc.symex import LoopCtx
+        w = LoopCtx(c.ex, st, st.frames[-1], c).var('i') - 1
+        goal = z3.And(z3.ULT(w, p['free']), r == slot(c.old, c.this, w), start(w) <= t, z3.Or(w + 1 == p['free'], start(w + 1) > t))
     return [('empty-pool-gives-null', z3.Implies(p['free'] == 0, r == 0)),
             # (with the active transitions sorted by start this is the LAST transition starting at or before t)
-            ('a-transition-not-after-t-whose-successor-is-later', z3.Implies(r != 0,
-                z3.Exists([k], z3.And(z3.ULT(k, p['free']), r == slot(c.old, c.this, k), start(k) <= t,
-                                      z3.Or(k + 1 == p['free'], start(k + 1) > t)))))]
+            ('a-transition-not-after-t-whose-successor-is-later', z3.Implies(r != 0, goal))]
 
 
 def _find_inv(L):
